@@ -56,11 +56,8 @@ func (s *StrStore) Load(ss []string) ([]int, error) {
 		totalLen += len(ss[i])
 	}
 	idxes := make([]int, n)
-	if cap(s.buf) < totalLen {
-		s.buf = make([]byte, totalLen)
-	} else {
-		s.buf = s.buf[:totalLen]
-	}
+	// strings returned by Get alias s.buf: never overwrite it, a reload gets a new buffer
+	s.buf = make([]byte, totalLen)
 
 	offset := 0
 	for i := 0; i < n; i++ {
